@@ -10,7 +10,7 @@ IMPORTS = """From TxV Require Import Core.Base Core.Show Model.Proc Gen.SrcLoad.
 Open Scope string_scope.
 Definition show_lev (e : lev) : string :=
   match e with LResolve _ => "R" | LInit _ => "I" | LProc _ => "P" | LRaise => "X" end.
-Definition show_trace (u : bool) : string := sjoin "" (map show_lev (run_phases load_phases [0%nat] u))."""
+Definition show_trace (u : bool) : string := sjoin "" (map show_lev (run_phases load_phases [0%nat; 1%nat] u))."""
 
 CORPUS = os.path.join(core.VERIF, "corpus", "C13")
 
@@ -33,11 +33,12 @@ def coq_case(case, o):
     regl = core.coq_list(["%d" % idx[n] for n in case["reg"] if n in idx])
     byname = {}
     acc = []
-    cm.objects_of(o["root_d"], o["root_match"], o["tree"], acc)
+    for m in o["models"]:
+        cm.objects_of(m["root_d"], m["root_match"], m["tree"], acc)
     for _, v in acc:
         if "id" in v and v.get("name") is not None:
             byname[v["name"]] = v["id"]
-    tree = T.value(o["tree"])
+    trees = [(T.dcl(m["root_d"], m["root_match"]), T.value(m["tree"])) for m in o["models"]]
     tbl = []
     for p, on, kind, k in case["actions"]:
         if p not in idx:
@@ -50,13 +51,13 @@ def coq_case(case, o):
             continue
         act = "AChild" if kind == "child" else "(AAtom %d)" % T.atom("i:%d" % (k if kind == "atom" else 0))
         tbl.append("(%d, %d, %s)" % (idx[p], i, act))
-    root = T.dcl(o["root_d"], o["root_match"])
-    return "%srun_case %s %s %s %s" % (T.lets(), regl, core.coq_list(tbl), root, tree), T
+    ms = core.coq_list(["(%s, %s)" % t for t in trees])
+    return "%srun_models %s %s %s" % (T.lets(), regl, core.coq_list(tbl), ms), T
 
 
 def impl_string(o, T):
     procs = [e for e in o["events"] if e["k"] == "proc"]
-    return T.recode("|".join("%d(%s)" % (e["p"], e["snap"]) for e in procs) + "$" + o["final"])
+    return T.recode("|".join("%d(%s)" % (e["p"], e["snap"]) for e in procs) + "$" + "$".join(m["final"] for m in o["models"]))
 
 
 def classify(case, o):
@@ -65,7 +66,7 @@ def classify(case, o):
 
 def run(chk):
     chk.prove([load_tr.translate])
-    n = 600 if chk.thorough else 120
+    n = 600 if chk.thorough else 100
     cases = load_corpus()
     for i in range(n):
         cases.append(cm.gen_case(chk.rng.split(i), thorough=chk.thorough and i % 2 == 0))
@@ -93,7 +94,7 @@ def run(chk):
         procs = [e for e in o["events"] if e["k"] == "proc"]
         kinds = [e["k"] for e in o["events"]]
         nobj = len(set(e["id"] for e in procs if e["id"]))
-        chk.count(json.dumps([c["grammars"], c["model"], c["reg"], c["actions"], c["user"]], sort_keys=True),
+        chk.count(json.dumps([c["grammars"], c["model"], c.get("files"), c["reg"], c["actions"], c["user"]], sort_keys=True),
                   nontrivial=len(procs) >= 3)
         chk.stat("load " + ("ok" if o["ok"] else "error:" + str(o["error_type"]) + (" (postponed forever)" if c.get("postpone_bad") else "")))
         chk.stat("objects processed %s" % ("0" if nobj == 0 else "1-3" if nobj <= 3 else "4-9" if nobj <= 9 else "10+"))
@@ -103,6 +104,8 @@ def run(chk):
             chk.stat("with child-returning processors")
         if "init" in kinds:
             chk.stat("with user classes")
+        if c.get("files"):
+            chk.stat("two models under construction (importURI)")
         if "resolve" in kinds:
             chk.stat("with references")
         if any(e["id"] == 0 for e in procs):
@@ -129,7 +132,7 @@ def run(chk):
         idx = {nm: i for i, nm in enumerate(o["names"])}
         bad = cm.oracle(c, o, idx)
         if bad:
-            failures.append({"case": c, "impl": {k: o.get(k) for k in ("ok", "error_type", "error", "final")} | {"calls": [(e["pn"], e["id"]) for e in procs]},
+            failures.append({"case": c, "impl": {k: o.get(k) for k in ("ok", "error_type", "error")} | {"calls": [(e["pn"], e["id"]) for e in procs]},
                              "model": mv.get(id(c)), "what": "; ".join(bad[:4]), "tags": classify(c, o)})
         if chk.cov["evaluations"] % 50 == 7:
             chk.sample({"grammar": c["grammars"][c["main"]], "model": c["model"], "reg": c["reg"], "actions": c["actions"][:6],
@@ -154,7 +157,7 @@ def replay(rep):
     idx = {nm: i for i, nm in enumerate(o["names"])}
     procs = [e for e in o["events"] if e["k"] == "proc"]
     print("grammar:\n" + "\n".join(case["grammars"].values()))
-    print("model: " + case["model"])
+    print("model: " + case["model"] + "".join("\n%s: %s" % kv for kv in (case.get("files") or {}).items()))
     print("registered: %s  actions: %s  user classes: %s" % (case["reg"], case["actions"], case["user"]))
     print("implementation: ok=%s error=%s %s" % (o["ok"], o["error_type"], o["error"]))
     print("calls: " + " ".join("%s(#%d)" % (e["pn"], e["id"]) for e in procs))
